@@ -75,7 +75,18 @@ def fix_case(old_src, new_src, leafvals, e0, e1, full=True):
     return ok
 
 
-GLB = {"fix_case": fix_case, "__name__": "harness.c02"}
+def mutated_case(kind, n0, n1, n2, c0):
+    """the compared value is mutated later in the same test; every snapshot reached holds a value the re-run passes with"""
+    world.reset({"n0": n0, "n1": n1, "n2": n2, "c0": c0})
+    v = {"tuple": "(n0, [n1])", "list": "[n0, [n1]]", "dict": "{1: [n1], 2: n0}"}[kind]
+    mut = {"tuple": "v[1].append(n2)", "list": "v[1].append(n2)", "dict": "v[1].append(n2)"}[kind]
+    t = HEAD + f"def test_a():\n    v = {v}\n    assert v == snapshot()\n    {mut}\n    assert v == snapshot(c0)\n    {mut}\n    assert v == snapshot()\n"
+    r = world.core_session(t, {"create", "fix"})
+    PathLog.record("mut" + kind + r.text, nontrivial=r.changed, sample={"value": v, "mutation_between_snapshots": mut, "rewritten_args": world.snapshot_arg_sources(r.text)})
+    return world.passes_when_disabled(r.text)
+
+
+GLB = {"fix_case": fix_case, "mutated_case": mutated_case, "__name__": "harness.c02"}
 
 
 FULL_LIMIT = {"quick": 5, "thorough": 99}
@@ -186,6 +197,10 @@ def conditions(tier):
         for i, p in enumerate([" and ".join(f"c{k} {'==' if (m >> k) & 1 else '!='} n{k}" for k in range(3)) for m in range(8)]):
             conds.append(_cond(f"nest_ll22_s{i}", S.L(S.L("c0", "c1"), S.L("c2", "c3")), S.L(S.L("n0", "n1"), S.L("n2", "n3")), "nested", timeout=2400, pre=[p]))
         conds.append(_cond("nest_dd", S.D(("1", S.D(("1", "c0"))), ("2", "c1")), S.D(("1", S.D(("2", "n0"))), ("3", "n1")), "nested"))
+    for kind in ("tuple", "list", "dict"):
+        name = f"mutated_between_{kind}"
+        conds.append(Cond(name, mkfn(name, [(x, "int") for x in ["n0", "n1", "n2", "c0"]], f"return mutated_case({kind!r}, n0, n1, n2, c0)", GLB), timeout=600, group="mutated",
+                          bounds=f"a {kind} holding a list is compared with three snapshots (empty, wrong, empty) and grows between them; create+fix; re-run with inline-snapshot disabled passes"))
     conds.append(_cond("list2_list2", S.L("c0", "c1"), S.L("n0", "n1"), "seq", twin=True))
     conds.append(_cond("dc_kw_ab_abc", call_olds["kw_ab"], call_news["abc"], "dataclass", twin=True))
     return conds
